@@ -166,6 +166,23 @@ func genPosition(rng *PRNG, terminalPct int) (string, *rules.Pos) {
 	}
 	p := rules.MustFen(fen)
 	n := 0
+	if rng.Intn(160) == 0 {
+		// the end of a very long drawn game: fifty-move counter about to
+		// expire after up to 512 plies (the announced maximum)
+		ms := strings.Fields(longEndgameMoves)
+		ms = ms[:len(ms)-rng.Intn(6)]
+		q := rules.MustFen(longEndgameFen)
+		okl := true
+		for _, m := range ms {
+			if q.Play(m) != nil {
+				okl = false
+				break
+			}
+		}
+		if okl && len(q.LegalMoves()) > 0 && q.HalfMove < 100 {
+			return "position fen " + longEndgameFen + " moves " + strings.Join(ms, " "), q
+		}
+	}
 	if fen == rules.StartFen && rng.Intn(80) == 0 {
 		// a very long game, close to the engine's documented capacity of 512 plies
 		ms := Playout(p, rng.Range(300, 510), rng)
